@@ -335,6 +335,8 @@ pub fn opts_for(prop: &str) -> GenOpts {
             o.drain = false;
         }
         "C11" => {
+            // sources that would yield again after their first None (F7b)
+            o.nonfused_pct = 10;
             o.high_range_pct = 10;
             o.zero_pct = 3;
             o.in_unwind_pct = 4;
@@ -357,6 +359,8 @@ pub fn opts_for(prop: &str) -> GenOpts {
             o.kinds = kinds;
         }
         "C12" => {
+            // sources that would yield again after their first None (F7b)
+            o.nonfused_pct = 10;
             o.high_range_pct = 10;
             // wrapped iterators whose exact size hint is wrong (F7c / F7d)
             o.short_hint_pct = 8;
